@@ -121,13 +121,27 @@ class ScriptedAdapter(ScriptAdapter):
 
     def check_jobs(self, joblist):
         WORLD.queried = list(joblist)
-        WORLD.emit(("check", tuple(sorted(WORLD.job_owner[j]
-                                          for j in joblist))))
+        WORLD.emit(("check", tuple(sorted(WORLD.job_owner[j] for j in joblist)),
+                    tuple(sorted(int(j) for j in joblist))))
         code = getattr(JobStatusCode, WORLD.poll_code)
         status = {}
-        owner_to_job = {WORLD.job_owner[j]: j for j in joblist}
+        # the scenario's report for a step is about the step's newest job; an older
+        # job of the same step that is asked about again is answered from the record
+        latest = {}
+        for j, nm in WORLD.job_owner.items():
+            if nm not in latest or int(j) > int(latest[nm]):
+                latest[nm] = j
+        owner_to_job = {}
+        for j in joblist:
+            nm = WORLD.job_owner[j]
+            if latest[nm] == j:
+                owner_to_job[nm] = j
+            elif WORLD.ledger.get(j) in TERMINAL and code == JobStatusCode.OK:
+                status[j] = getattr(State, WORLD.ledger[j])
         for name, st in WORLD.poll_reports:
             if name not in owner_to_job:
+                if any(WORLD.job_owner[j] == name for j in joblist):
+                    continue      # only a stale job of the step was asked about
                 raise AssertionError(
                     "scenario reports a step that was not queried: %s" % name)
             jid = owner_to_job[name]
@@ -137,8 +151,8 @@ class ScriptedAdapter(ScriptAdapter):
         return code, status
 
     def cancel_jobs(self, joblist):
-        WORLD.emit(("cancel", tuple(sorted(WORLD.job_owner[j]
-                                           for j in joblist))))
+        WORLD.emit(("cancel", tuple(sorted(WORLD.job_owner[j] for j in joblist)),
+                    tuple(sorted(int(j) for j in joblist))))
         code = getattr(CancelCode, WORLD.cancel_code)
         return CancellationRecord(code, 0 if code == CancelCode.OK else 1)
 
